@@ -139,22 +139,17 @@ def parseGraph (l : List String) : List (Subst × PStr × PStr) :=
     | [es, a, b] => some (parseSubst es, pcps a, pcps b)
     | _ => none
 
-def runMode (c : Cfg) (i : Subst → PStr → PStr) (mode : String) (parent : Option PStr) (n : Node) : String :=
-  let kidsOf : Node → Option (PStr × List Node) := fun
-    | .tag nm _ _ _ _ ks => some (nm, ks)
-    | .str _ _ => none
-  if mode == "D" then showP (render c i parent n)
-  else if mode == "C" then
-    match kidsOf n with
-    | some (nm, ks) => showP (renderL c i (some nm) ks)
-    | none => "bad-receiver"
-  else if mode.startsWith "P" then showP (pretty c i (mode.drop 1).toString.toNat! parent n)
-  else if mode.startsWith "Q" then
-    match kidsOf n with
-    | some (nm, ks) => showP (prettyL c i (mode.drop 1).toString.toNat! (some nm) ks)
-    | none => "bad-receiver"
-  else if mode == "L" then "[" ++ ";".intercalate ((calls c parent n).map showP) ++ "]"
-  else "bad-mode"
+def parseMode (mode : String) : Option Mode :=
+  if mode == "D" then some .decode
+  else if mode == "C" then some .contents
+  else if mode.startsWith "P" then some (.pretty (mode.drop 1).toString.toNat!)
+  else if mode.startsWith "Q" then some (.prettyContents (mode.drop 1).toString.toNat!)
+  else none
+
+def showOut : Out → String
+  | .ok s => showP s
+  | .keyError => "KeyError"
+  | .badReceiver => "bad-receiver"
 
 def handle : List String → String
   | ["ctor", fmt] =>
@@ -172,15 +167,20 @@ def handle : List String → String
     match parseFmt fmt with
     | none => "bad-fmt"
     | some a =>
-      match formatterForName BS.Gen.fmtHtmlRegistry BS.Gen.fmtXmlRegistry (isXml == "1") a with
-      | .keyError => "KeyError"
-      | .ok c =>
-        let k := ng.toNat!
-        let graph := parseGraph (rest.take k)
-        let tt := rest.drop k
-        match parseNode (tt.length + 1) tt with
-        | some (n, []) => runMode c (interpOf graph) mode (if parent == "N" then none else some (pcps parent)) n
-        | _ => "bad-tree"
+      let k := ng.toNat!
+      let graph := parseGraph (rest.take k)
+      let tt := rest.drop k
+      let par := if parent == "N" then none else some (pcps parent)
+      match parseNode (tt.length + 1) tt with
+      | some (n, []) =>
+        if mode == "L" then
+          match formatterForName BS.Gen.fmtHtmlRegistry BS.Gen.fmtXmlRegistry (isXml == "1") a with
+          | .keyError => "KeyError"
+          | .ok c => "[" ++ ";".intercalate ((calls c par n).map showP) ++ "]"
+        else match parseMode mode with
+          | some m => showOut (entry BS.Gen.fmtHtmlRegistry BS.Gen.fmtXmlRegistry (isXml == "1") a (interpOf graph) m par n)
+          | none => "bad-mode"
+      | _ => "bad-tree"
   | ["subst", "x", s] => showP (substXml (pcps s))
   | ["subst", "h", s] => showP (reSub BS.Gen.htmlAlts (pcps s))
   | ["substrev", s] => showP (reSub BS.Gen.htmlAlts.reverse (pcps s))
